@@ -73,14 +73,15 @@ def loco_tree(kind, ivk, p=""):
     set_interval(t, iv_tmpl(ivk))
     comp = t["loco_type"].payload[0]
     for k in comp:
-        with_counter(comp[k])
-        set_interval(comp[k], iv_tmpl(ivk))
+        if k in ("fc", "gen", "res", "edrv"):
+            with_counter(comp[k])
+            set_interval(comp[k], iv_tmpl(ivk))
     return t
 
 
 def loco_paths(kind):
-    P = "loco_type.ConventionalLoco." if kind == "conv" else "loco_type.BatteryElectricLoco."
-    return [P + x for x in (("fc", "gen", "edrv") if kind == "conv" else ("res", "edrv"))]
+    P = {"conv": "loco_type.ConventionalLoco.", "bel": "loco_type.BatteryElectricLoco.", "hyb": "loco_type.HybridLoco."}[kind]
+    return [P + x for x in {"conv": ("fc", "gen", "edrv"), "bel": ("res", "edrv"), "hyb": ("fc", "gen", "res", "edrv")}[kind]]
 
 
 def loco_case(kind, ivk):
@@ -102,7 +103,7 @@ def loco_case(kind, ivk):
 
 
 def consist_case(comp, ivk):
-    kinds = {"C": "conv", "B": "bel"}
+    kinds = {"C": "conv", "B": "bel", "H": "hyb"}
     locos = [loco_tree(kinds[ch], ivk, f"l{j}_") for j, ch in enumerate(comp)]
     st = auto_state("ConsistState", "cs_")
     st["i"] = I0
@@ -131,7 +132,7 @@ def consist_case(comp, ivk):
 
 def propagate_case(comp, new_iv):
     """Consist::set_save_interval reaches every nested object, whatever the intervals were before"""
-    kinds = {"C": "conv", "B": "bel"}
+    kinds = {"C": "conv", "B": "bel", "H": "hyb"}
     locos = []
     for j, ch in enumerate(comp):
         t = loco_tree(kinds[ch], "None", f"l{j}_")
@@ -172,7 +173,7 @@ def propagate_case(comp, new_iv):
 def slts_propagate_case(comp, new_iv, same_as_top):
     """SpeedLimitTrainSim::set_save_interval reaches consist, locomotives, components and the friction brake,
     also when the top-level field already holds the requested value"""
-    kinds = {"C": "conv", "B": "bel"}
+    kinds = {"C": "conv", "B": "bel", "H": "hyb"}
     locos = []
     for j, ch in enumerate(comp):
         t = loco_tree(kinds[ch], "None", f"l{j}_")
@@ -254,7 +255,7 @@ def m_cases(tier):
     for ivk in ("Some", "None"):
         for kc in ("fc", "gen", "edrv", "res"):
             cs.append(comp_case(kc, ivk))
-        cs += [loco_case("conv", ivk), loco_case("bel", ivk), consist_case("CB", ivk)]
+        cs += [loco_case("conv", ivk), loco_case("bel", ivk), loco_case("hyb", ivk), consist_case("CB", ivk), consist_case("HC", ivk)]
         cs.append(ssts_step_case(ivk))
     cs += [propagate_case("CB", "Some"), propagate_case("CB", "None")]
     cs += [slts_propagate_case("CB", "Some", True), slts_propagate_case("CB", "Some", False), slts_propagate_case("CB", "None", True), slts_propagate_case("CB", "None", False)]
